@@ -155,7 +155,7 @@ func checkC05(p *Prog, r *Report) {
 						continue
 					}
 				}
-				if h(acc.In) {
+				if h(acc.at()) {
 					r.OK(key, p.InstrPos(acc.In), "under %s", ca.mutexField)
 				} else {
 					r.Bad(key, p.InstrPos(acc.In), "cache %s without the mutex", acc.Kind)
